@@ -155,7 +155,9 @@ Step(ev) == CASE ev.ev = "FromMetric" -> FromMetricStep(ev)
               \* an integer-typed SPD array as prior / init gives the model the same numbers as a float array give
               [] ev.ev = "ArrayPriorDtype" ->
                    R(G("C20.array_prior_used_as_given_whatever_its_dtype",
-                       ev.outcome_int = "ok" /\ ApproxM(ev.L_int, ev.L_float, 2, 2, MaxAbsM(ev.L_float))),
+                       \* (the same numbers up to rounding: another dtype / memory layout changes the order of the floating-point sums, which an
+                       \*  ill-conditioned fit amplifies - 2^-15 of the largest entry, as for C06's equivalent array-likes)
+                       ev.outcome_int = "ok" /\ ApproxM(ev.L_int, ev.L_float, 1, 1, MaxAbsM(ev.L_float))),
                      {"C20.array_prior_used_as_given_whatever_its_dtype"})
               [] ev.ev = "InitComponents" -> InitComponentsStep(ev)
               [] OTHER -> R({"TRACE.unknown_event"}, {})
